@@ -208,6 +208,7 @@ func randomTable(r *rand.Rand, profile string, nreq int) tableCase {
 		nws = 1
 	}
 	seenRoot := map[string]bool{}
+	twins := [][2]int{} // routes that are the literal twin of another route's variable token: asked for exactly
 	for i := 0; i < nws; i++ {
 		root := randomRoot(r, profile, i)
 		if seenRoot[root] {
@@ -225,15 +226,25 @@ func randomTable(r *rand.Rand, profile string, nreq int) tableCase {
 		var base [][]string
 		for j := 0; j < nr; j++ {
 			var toks []string
+			sameMethodAs := -1
 			if profile == "headers" {
 				toks = [][]string{{"a"}, {"{x1}"}, {"a", "{x2}"}}[r.Intn(3)]
 			} else if len(base) > 0 && r.Intn(100) < 45 {
 				// overlap an earlier template: change one token's kind (dominance pairs)
-				src := base[r.Intn(len(base))]
+				si := r.Intn(len(base))
+				src := base[si]
 				toks = append([]string{}, src...)
 				if len(toks) > 0 {
 					k := r.Intn(len(toks))
 					toks[k] = genPathToks(r, 1, profile, fmt.Sprintf("y%d_", j), k == len(toks)-1)[0]
+					if strings.Contains(src[k], "{") && !strings.Contains(src[k], ":*}") && r.Intn(100) < 40 {
+						// a literal the variable token of the other template matches (prefix, suffix and verb included),
+						// on the same method: both routes are eligible for that URL, the literal one is more specific
+						if vs := valueFor(r, src[k]); len(vs) == 1 && vs[0] != "" && !strings.ContainsAny(vs[0], "{}%+ ") {
+							toks[k] = vs[0]
+							sameMethodAs = si
+						}
+					}
 				}
 			} else {
 				toks = genPathToks(r, r.Intn(4), profile, fmt.Sprintf("x%d_", j), true)
@@ -251,6 +262,10 @@ func randomTable(r *rand.Rand, profile string, nreq int) tableCase {
 				Cons: []string{}, Prod: []string{}, Conds: []int{}, Noct: []string{}}
 			if profile == "common" && r.Intn(2) == 0 {
 				rs.M = []string{"GET", "POST"}[r.Intn(2)]
+			}
+			if sameMethodAs >= 0 && sameMethodAs < len(s.Routes) {
+				rs.M = s.Routes[sameMethodAs].M
+				twins = append(twins, [2]int{len(t.Services), len(s.Routes)})
 			}
 			if r.Intn(14) == 0 {
 				rs.M = pick(r, []string{"TRACE", "PROPFIND", "REPORT", "UNLOCK", "LOCK", "PROPPATCH"}) // methods outside the usual seven; some contain another
@@ -286,6 +301,13 @@ func randomTable(r *rand.Rand, profile string, nreq int) tableCase {
 	}
 	for i := 0; i < nreq; i++ {
 		t.Reqs = append(t.Reqs, randomRequest(r, t, profile))
+	}
+	if nreq > 0 {
+		for i := range twins {
+			forcedRoute = &twins[i]
+			t.Reqs = append(t.Reqs, randomRequest(r, t, profile), randomRequest(r, t, profile))
+			forcedRoute = nil
+		}
 	}
 	if profile == "mixed" || profile == "headers" {
 		for i := 0; i < 2; i++ {
@@ -408,12 +430,22 @@ func mutateSegs(r *rand.Rand, segs []string) []string {
 	return segs
 }
 
+// forcedRoute: when set, randomRequest derives an unmutated request on that route's method from (service, route)
+var forcedRoute *[2]int
+
 func randomRequest(r *rand.Rand, t tableCase, profile string) reqSpec {
 	rq := reqSpec{Conds: []int{}}
 	// path
 	var segs []string
 	var fromRoute *routeSpec
-	if len(t.Services) > 0 && r.Intn(100) < 85 {
+	if forcedRoute != nil {
+		s := t.Services[forcedRoute[0]]
+		rt := s.Routes[forcedRoute[1]]
+		fromRoute = &rt
+		for _, tok := range fullTokens(s.Root, rt.P) {
+			segs = append(segs, valueFor(r, tok)...)
+		}
+	} else if len(t.Services) > 0 && r.Intn(100) < 85 {
 		s := t.Services[r.Intn(len(t.Services))]
 		if len(s.Routes) > 0 {
 			rt := s.Routes[r.Intn(len(s.Routes))]
@@ -432,6 +464,9 @@ func randomRequest(r *rand.Rand, t tableCase, profile string) reqSpec {
 	if profile == "common" || profile == "allow" {
 		mut = 35
 	}
+	if forcedRoute != nil {
+		mut = 0
+	}
 	if r.Intn(100) < mut {
 		segs = mutateSegs(r, segs)
 		if r.Intn(4) == 0 {
@@ -448,7 +483,7 @@ func randomRequest(r *rand.Rand, t tableCase, profile string) reqSpec {
 		rq.Path += "//"
 	}
 	// method
-	if fromRoute != nil && r.Intn(100) < 70 {
+	if fromRoute != nil && (forcedRoute != nil || r.Intn(100) < 70) {
 		rq.M = fromRoute.M
 	} else {
 		rq.M = pick(r, append(methodPool, "HEAD", "OPTIONS"))
